@@ -561,6 +561,11 @@ class Interp(object):
             return self._loop_with_invariant(s, env, module, func, self.loop_invs[key], it)
         items, generic = self.iterate(it)
         if generic:
+            # the body is executed ONCE for a generic element: sound only if no iteration reads what another one wrote
+            carried = self._loop_carried(s)
+            if carried:
+                raise Unsupported('lane-map loop with a loop-carried dependence on %s (an iteration reads what an earlier one '
+                                  'wrote): needs a loop invariant' % ', '.join(sorted(carried)))
             self.generic_depth += 1
             ref = self._gen_ref(it)
             saved_gen = (State.gen_n, State.gen_mask)
@@ -590,6 +595,64 @@ class Interp(object):
                 break
         if not broke:
             self.exec_block(s.orelse, env, module, func)
+
+    @staticmethod
+    def _loop_carried(s):
+        """names through which one iteration of `for` loop s can observe an earlier one: a local read before it is written in
+        the body although the body also writes it, or a list the body appends to and also reads"""
+        written = set()
+        for n in ast.walk(s.target):
+            if isinstance(n, ast.Name):
+                written.add(n.id)
+        assigned, appended = set(), set()
+        for n in ast.walk(ast.Module(body=s.body, type_ignores=[])):
+            if isinstance(n, ast.Name) and isinstance(n.ctx, (ast.Store, ast.Del)):
+                assigned.add(n.id)
+            if isinstance(n, ast.Call) and isinstance(n.func, ast.Attribute) and n.func.attr in ('append', 'extend', 'insert', 'add',
+                                                                                                    'update', 'pop', 'remove') \
+                    and isinstance(n.func.value, ast.Name):
+                appended.add(n.func.value.id)
+        carried = set()
+
+        def receiver_ids(node):
+            return {id(c.func.value) for c in ast.walk(node) if isinstance(c, ast.Call) and isinstance(c.func, ast.Attribute)
+                    and c.func.attr in ('append', 'extend', 'insert', 'add', 'update') and isinstance(c.func.value, ast.Name)}
+
+        def visit(node):
+            # source order: value before targets for assignments
+            if isinstance(node, (ast.FunctionDef, ast.Lambda, ast.AsyncFunctionDef)):
+                return          # a closure defined in the body is evaluated when called; its free variables are checked there
+            if isinstance(node, ast.Assign):
+                visit(node.value)
+                for t in node.targets:
+                    visit(t)
+                return
+            if isinstance(node, ast.AugAssign):
+                visit(node.value)
+                if isinstance(node.target, ast.Name):
+                    if node.target.id not in written:
+                        carried.add(node.target.id)
+                    written.add(node.target.id)
+                else:
+                    visit(node.target)
+                return
+            if isinstance(node, ast.Name):
+                if isinstance(node.ctx, ast.Load):
+                    if node.id in assigned and node.id not in written:
+                        carried.add(node.id)
+                    if node.id in appended and id(node) not in recv:
+                        carried.add(node.id)
+                else:
+                    written.add(node.id)
+                return
+            for ch in ast.iter_child_nodes(node):
+                visit(ch)
+        recv = set()
+        for st in s.body:
+            recv |= receiver_ids(st)
+        for st in s.body:
+            visit(st)
+        return carried
 
     def st_While(self, s, env, module, func):
         key = self._loop_key(s, func)
